@@ -172,6 +172,21 @@ func CrashPoints(events []Event) []int {
 	return out
 }
 
+// PowerLossPoints are the crash points of the power-loss model: the process-crash points plus
+// the points directly before every fsync()/sync() - there the set of unsynced writes is largest,
+// and a state such as "checkpoint PREPARING written, global sync not yet done" exists only there
+// (under the process-crash model it equals its neighbour and is not enumerated separately).
+func PowerLossPoints(events []Event) []int {
+	var out []int
+	for i := range events {
+		if events[i].Mutating() || events[i].Kind == EvSync || events[i].Kind == EvFsync {
+			out = append(out, i)
+		}
+	}
+	out = append(out, len(events))
+	return out
+}
+
 // Pending returns the indices (< k) of data writes that are not yet durable at
 // crash point k: no fsync of the same file and no global sync() between the
 // write and k. File identity follows renames.
